@@ -216,9 +216,8 @@ Proof.
       destruct (N.eqb_spec j i) as [->|_].
       { exfalso. destruct Hj as [Hj|Hj]; [apply (proj1 Hi); rewrite in_app_iff; tauto|tauto]. }
       destruct (N.eqb_spec j a) as [->|_]; [|reflexivity].
+      (* a occurs once in A' ++ a :: i :: B *)
       exfalso. apply NoDup_remove_2 in Hnd.
-      (* a occurs once *)
-      clear - Hnd Hj Hi. apply NoDup_remove_2 in Hnd || idtac.
       rewrite in_app_iff in Hnd. cbn in Hnd. tauto.
     + rewrite Hf'. cbn [negb andb].
       destruct (N.eqb_spec a i) as [|_]; [contradiction|]. rewrite N.eqb_refl. reflexivity.
